@@ -31,7 +31,7 @@ var sigHdrDefs = []sigHdrDef{
 
 // alternative values of fingerprinted strings whose character-class signature is zero or minimal
 var sigValVariants = map[sipsp.HdrT][]string{
-	sipsp.HdrVia:    {"SIP/2.0/UDP h;branch=z9hG4bKabc", "SIP/2.0/UDP h:5060;rport"},
+	sipsp.HdrVia:    {"SIP/2.0/UDP h;branch=z9hG4bKabc", "SIP/2.0/UDP h:5060;rport", "SIP/2.0/UDP h;rport;branch=z9hG4bK.a-b_c, SIP/2.0/TCP other;branch=zzz9", "SIP/2.0/UDP h;branch=z9hG4bKabc123def ,SIP/2.0/UDP o2"},
 	sipsp.HdrCallID: {"abc", "x@y"},
 	sipsp.HdrFrom:   {"<sip:a@b>;tag=t", "sip:a@b"},
 }
@@ -104,7 +104,11 @@ func (cs *c19Case) render() (msg []byte, nh int, want []sipsp.HdrSigId, cid, via
 			cid = val
 		}
 		if d.Type == sipsp.HdrVia {
+			// the branch signature is that of the FIRST Via value: a comma starts another value
 			via = val
+			if k := strings.IndexByte(val, ','); k >= 0 {
+				via = strings.TrimRight(val[:k], " ")
+			}
 		}
 	}
 	filler(len(cs.Order))
@@ -334,7 +338,7 @@ func checkC19(r *Run) {
 					cms = []int{0, 1<<len(ord) - 1, (oi*37 + mi*11) % (1 << len(ord)), 0x55 & (1<<len(ord) - 1)}
 				}
 				for _, cm := range cms {
-					base := c19Case{Method: meth, Order: ord, Compact: cm, Repeat: -1, Cap: 40, Cut: -1, Var: (oi + mi + cm) % 3}
+					base := c19Case{Method: meth, Order: ord, Compact: cm, Repeat: -1, Cap: 40, Cut: -1, Var: (oi + mi + cm) % 5}
 					run(c, &base)
 					if (oi+mi+cm)%r.pick(5, 2) != 0 {
 						continue
